@@ -193,6 +193,27 @@ def _fmt(cs) -> str:
     return ", ".join(sorted(str(c) if isinstance(c, Interval) else f"{c[0]}=={c[1]}" for c in cs)) or "no guard"
 
 
+def _nan_parity(ctx, cq, name, init, cvar, c_nodes, st, svar, s_nodes):
+    """A value that is unordered with every number (NaN) lies outside every range: where the reviewed
+    guards refuse it (the `not (lo <= x <= hi)` form does, `x < lo or x > hi` does not) they must keep
+    refusing it, in the constructor and in the setter alike."""
+    from sa.guards import refuses_unordered
+
+    for site, fn, var, nodes in (("constructor", init, cvar, c_nodes), ("setter", st, svar, s_nodes)):
+        verdicts = [refuses_unordered(g_.test, var) for g_ in nodes if not isinstance(g_, _CallGuard)]
+        refused = any(v is True for v in verdicts)
+        key = (cq.split(":")[1], name)
+        if key in NAN_NOT_APPLICABLE or not nodes:
+            continue
+        ctx.check(refused, f"{cq}.{name}#not-a-number:{site}", "NaN is refused (the guard negates an acceptance test, which NaN fails)" if refused else f"the {site} of {name} does not refuse NaN: its range test is written as rejections (`x < lo or x > hi`) that are all false for NaN, so a NaN configured / assigned / swept there is stored", where=fn, node=(nodes[0].test if nodes and not isinstance(nodes[0], _CallGuard) else fn.node))
+
+
+NAN_NOT_APPLICABLE = {
+    ("Geometry", "row"): "an array size is an integer: NaN is not an int (range(row) / np.zeros fail on it)",
+    ("Geometry", "col"): "same",
+}
+
+
 def r2_ctor_setter_parity(ctx):
     """For every field of Geometry, Characteristics, APDCharacteristics and Environment that has a range/length guard in the constructor or in its property setter, both guards exist and accept the same region (closedness included); in the setter every guard dominates the store, so a rejected assignment leaves the old value."""
     n = 0
@@ -205,13 +226,14 @@ def r2_ctor_setter_parity(ctx):
             if name not in init.params:
                 continue
             val = st.params[1]
-            c_cons, c_unp, _ = _guards_on(ctx, init, name)
+            c_cons, c_unp, c_nodes = _guards_on(ctx, init, name)
             s_cons, s_unp, s_nodes = _guards_on(ctx, st, val)
             for u in c_unp + s_unp:
                 raise AnalysisError(f"{cq}.{name}: guard outside the interval grammar: {norm(u.test)[:80]}")
             if not c_cons and not s_cons:
                 continue
             n += 1
+            _nan_parity(ctx, cq, name, init, name, c_nodes if any(isinstance(c_, Interval) for c_ in c_cons) else [], st, val, s_nodes if any(isinstance(c_, Interval) for c_ in s_cons) else [])
             same = set(c_cons) == set(s_cons)
             ctx.check(
                 same,
